@@ -182,9 +182,13 @@ class C07(PropBase):
                         kinds = ['fc', 'foreign']
                         if txdl > 8 and k < len(frames) - 1:
                             kinds += ['rxdl', 'rxdl']
+                        kinds.append('sf_noescape')
                         ignored = rng.choice(kinds)
                         if ignored == 'fc':
                             ops.append({'op': 'frame', 'i': 0, 'id': fid, 'ext': ext, 'data': pre + bytes([0x30, 0, 0])})
+                        elif ignored == 'sf_noescape':
+                            # a Single Frame on more than 8 bytes without the escape sequence: refused (MissingEscapeSequenceError), ignored
+                            ops.append({'op': 'frame', 'i': 0, 'id': fid, 'ext': ext, 'data': (pre + bytes([0x05]) + bytes(11))[:12]})
                         elif ignored == 'foreign':
                             ops.append({'op': 'frame', 'i': 0, 'id': fid ^ 1, 'ext': ext, 'data': fr})
                         else:
